@@ -10,7 +10,7 @@ import json, os, subprocess, sys, re
 
 ROOT = '/verif/seeded'
 wt = sys.argv[1]
-seeds = sys.argv[2:] or sorted(d for d in os.listdir(ROOT) if re.fullmatch(r'C\d\d-\d', d))
+seeds = sys.argv[2:] or sorted(d for d in os.listdir(ROOT) if re.fullmatch(r'C\d\d-\d+', d))
 env = dict(os.environ, CARGO_NET_OFFLINE='true', CARGO_TARGET_DIR=wt + '/target')
 
 def sh(cmd, cwd=wt):
